@@ -21,20 +21,20 @@ import (
 
 type evalDom struct {
 	lookupErr map[*ssa.Function]types.Type
-	p        *Program
-	e        *Engine
-	pkg      *ssa.Package
-	evalFn   *ssa.Function
-	scopeT   types.Type
-	nodeIdx  int // parameter positions (in Params, receiver included)
-	curIdx   int
-	scopeIdx int
-	wrapper  map[*ssa.Function]bool
-	nodeObj  *avObj
-	evalObj  *avObj
-	cur      AV
-	scope    AV
-	why      string
+	p         *Program
+	e         *Engine
+	pkg       *ssa.Package
+	evalFn    *ssa.Function
+	scopeT    types.Type
+	nodeIdx   int // parameter positions (in Params, receiver included)
+	curIdx    int
+	scopeIdx  int
+	wrapper   map[*ssa.Function]bool
+	nodeObj   *avObj
+	evalObj   *avObj
+	cur       AV
+	scope     AV
+	why       string
 }
 
 func isAnyType(t types.Type) bool {
